@@ -218,3 +218,38 @@ func VerifCacheDel() {
 	}
 	verifReach("deleted")
 }
+
+// VerifCachePutConcurrent: two discoveries of overlapping regions race (every interleaving
+// within the delay bound): afterwards no two cached regions of the table intersect, everything
+// evicted is marked dead and everything cached is alive.
+func VerifCachePutConcurrent() {
+	// an old region covering [a, z) is cached; a region [a, m) and a newer one [c, f) that
+	// overlaps it are discovered at the same time (ids symbolic: any age order of the two)
+	c := &keyRegionCache{logger: vLogger(), regions: b.TreeNew[[]byte, hrpc.RegionInfo](region.Compare)}
+	o := vMkRegion(0, 1, []byte("a"), []byte("z"))
+	c.regions.Set(o.Name(), o)
+	regs := []vCached{{o, 0}}
+	ida, idb := verifInt(2, 5), verifInt(2, 5)
+	verifAssume(ida != idb)
+	a, ta := vMkRegion(0, uint64(ida), []byte("a"), []byte("m")), 0
+	b, tb := vMkRegion(0, uint64(idb), []byte("c"), []byte("f")), 0
+	done := make(chan struct{}, 2)
+	go func() { c.put(a); done <- struct{}{} }()
+	go func() { c.put(b); done <- struct{}{} }()
+	<-done
+	<-done
+	after := vTreeContents(c)
+	all := append([]vCached{{a, ta}, {b, tb}}, regs...)
+	for i := range after {
+		for j := 0; j < i; j++ {
+			verifAssert(!vOverlap(after[i], vTableOf(after[i]), after[j], vTableOf(after[j])), "no two cached regions of one table intersect")
+		}
+		verifAssert(after[i].Context().Err() == nil, "a cached region is alive")
+	}
+	for _, x := range all {
+		if !vHas(after, x.r) && x.r != a && x.r != b {
+			verifAssert(x.r.Context().Err() != nil, "a region evicted from the cache is marked dead")
+		}
+	}
+	verifReach("raced")
+}
